@@ -1143,6 +1143,11 @@ def nonneg_extra_configs(tier, seed):
         for data in ("negative", "sparse", "integer"):
             add(alg, shape=[4, 5, 3], rank=2, data=data, init=str(rng.choice(["svd", "random"])), tol="tiny", normalize=bool(rng.rand() < 0.5))
         add(alg, shape=[4, 5, 3], rank=2, data="signed", init="user", init_kind="nonneg", tol="tiny")
+    # the rarely used exact=True option of the HALS routines (inner solves run to their own convergence)
+    for data in ("signed", "sparse", "nonneg"):
+        add("nn_parafac_hals", shape=[4, 5, 3], rank=2, data=data, init=["svd", "random"][len(cfgs) % 2], tol="tiny", exact=True, caps=[0, 1, 2, 5])
+        add("nn_tucker_hals", shape=[4, 5, 3], rank=[2, 2, 2], data=data, init=["svd", "random"][len(cfgs) % 2], tol="tiny", exact=True,
+            algorithm=["fista", "active_set"][len(cfgs) % 2], caps=[0, 1, 2, 5])
     # negative zeros / subnormal entries in the data, every non-negative routine
     for alg, rk in (("nn_parafac", 2), ("nn_parafac_hals", 2), ("nn_tucker", [2, 2, 2]), ("nn_tucker_hals", [2, 2, 2])):
         for init in ("svd", "random"):
